@@ -34,6 +34,9 @@ def generate(tier, seed, shard, nshards):
         r = rng.random()
         ph = rng.choice(SPECIAL_PH) if r < 0.3 else (rng.uniform(-6 * math.pi, 6 * math.pi) if r < 0.6 else rng.uniform(-math.pi, math.pi))
         off = 0.0 if rng.random() < 0.4 else rng.choice([1, -1]) * 10 ** rng.uniform(-2, 2)
+        if (k // len(WAVES)) % 11 == 10:
+            A = rng.choice([0.0, -0.0, 0])            # an amplitude of exactly zero: the waveform is its offset
+            off = rng.choice([1, -1]) * 10 ** rng.uniform(-2, 2)
         ns = list(range(0, 41)) + sorted(rng.sample(range(41, 601), 12))
         # number types: a waveform's parameters (and the harmonic order) as Python ints / numpy scalars instead of float / int
         yield {'kind': 'wave', 'wave': wave, 'period': T, 'amplitude': A, 'phase': ph, 'offset': off, 'ns': ns,
@@ -86,6 +89,17 @@ def judge(case, ctx, prefix='C08'):
     if raised(hs):
         ctx.violation(f'{prefix}/construction-raised/{hs.key}', f'{wave} waveform / fourier_series raised {hs.text}', {})
         return
+    # the time function of a waveform does not depend on the number type of the instants it is asked for
+    ti = np.arange(0, 9)
+    yi, yf = call(pf.time_function, ti), call(pf.time_function, ti.astype(float))
+    ctx.count('integer_typed_instants_checked')
+    if raised(yi) or raised(yf):
+        bad = yi if raised(yi) else yf
+        ctx.violation(f'{prefix}/time-function/raised/{bad.key}', f'{wave}: time_function on {"integer" if raised(yi) else "float"} instants raised {bad.text}', {})
+    else:
+        yi_, yf_ = np.asarray(yi, dtype=float).reshape(-1), np.asarray(yf, dtype=float).reshape(-1)
+        if yi_.shape != yf_.shape or float(np.max(np.abs(yi_ - yf_))) > 1e-9 * (abs(A) + abs(off) + 1e-300):
+            ctx.violation(f'{prefix}/time-function/depends-on-the-number-type-of-t/{wave}', f'{wave} (A={A!r}, offset={off!r}, T={T!r}): integer-typed instants give {yi_[:4].tolist()!r}, the same instants as floats {yf_[:4].tolist()!r}', {})
     sh = fourier.recognise(pf.time_function, T, ph)
     if sh.kind == 'unknown':
         ctx.count('shape_unknown')
